@@ -409,6 +409,9 @@ private:
   // (CONNECTED / DISCONNECTED / CLOSED) before treating the attempt as failed.
   static constexpr std::chrono::milliseconds kHandshakeSettleTimeout{10000};
 
+  // Largest frame payload the client will buffer (matches the server default).
+  static constexpr std::uint64_t kMaxFramePayload = 16ull * 1024 * 1024;
+
   /// \brief The reconnect worker loop. Static (captures NO raw this): it holds a
   /// weak_ptr<WebSocketClient> and a STRONG shared_ptr<ReconnectControl>, and
   /// promotes `self` per attempt. MANDATORY ORDER (F-C4 — headline invariant):
@@ -543,6 +546,7 @@ private:
     }
     _upgradeComplete.store(false);
     _closeEchoed.store(false); // re-arm the one-shot CLOSE echo for this connection
+    _protocolFailed.store(false);
 
     // Register the global callbacks on the LOCAL transport. Each weak-captures
     // the client (NEVER an owning shared_ptr<Transport> of its own _transport —
@@ -789,14 +793,33 @@ private:
     }
 
     // Step 3: Parse WebSocket frames (outside lock)
+    if (_protocolFailed.load())
+    {
+      return; // connection already failed (RFC 6455 7.1.7): discard further input
+    }
     std::size_t offset = 0;
     while (offset < localBuffer.size())
     {
       core::BufferView view(localBuffer.data() + offset,
                             localBuffer.size() - offset);
       std::size_t consumed = 0;
-      auto frame = WebSocketFrame::parse(view, consumed);
-      if (!frame) break;
+      WsParseStatus status = WsParseStatus::Ok;
+      auto frame = WebSocketFrame::parse(view, consumed, status, kMaxFramePayload);
+      if (!frame)
+      {
+        if (status == WsParseStatus::ProtocolError || status == WsParseStatus::TooLarge)
+        {
+          // Fail the connection rather than wait forever on a header that can
+          // never become an acceptable frame (it would buffer without bound).
+          const bool tooLarge = (status == WsParseStatus::TooLarge);
+          _protocolFailed.store(true);
+          sendClose(tooLarge ? 1009 : 1002, tooLarge ? "Message Too Big" : "Protocol error");
+          setState(WebSocketState::CLOSED);
+          if (_onError) _onError(tooLarge ? "Frame exceeded size limit" : "WebSocket protocol error");
+          return; // drop the unparseable remainder
+        }
+        break;
+      }
       offset += consumed;
 
       // handleFrame fires callbacks — must be outside lock
@@ -1209,6 +1232,9 @@ private:
   // CLOSE is echoed, re-armed in doConnect() per connection. Replaces the dead
   // _state==CLOSING guard (CLOSING is never stored — it is a reserved state).
   std::atomic<bool> _closeEchoed{false};
+  // Set when an inbound frame header was a protocol error / over the size limit:
+  // the connection has been failed and further input is discarded. Reset per connection.
+  std::atomic<bool> _protocolFailed{false};
 
   // Fragment reassembly (protected by _dataMutex)
   std::vector<std::uint8_t> _fragmentBuffer;
